@@ -61,6 +61,11 @@ def gen_cases(ctx):
         cases.append({"kind": "random", "inpkg": inpkg, "genseed": rng.randrange(1 << 30), "count": 8, "template": t,
                       "formatter": rng.choice(["goimports", "gofmt", "noop"]), "placement": rng.choice(["inpkg", "inpkg-test"]) if inpkg else rng.choice(["xtest", "outpkg", "outpkg-collide"]),
                       "td": td_options(rng, t), "gomod": rng.choice(["plain"] * 4 + list(mockgen.GOMOD_SPELLINGS)), "srckind": "ordinary"})
+    from . import c13
+    for j, r in enumerate(c13.REPLACEMENTS[: (4 if ctx.tier == "quick" else 7)]):
+        for fm in (("gofmt", "noop") if ctx.tier == "quick" else ("gofmt", "noop", "goimports")):
+            cases.append({"kind": "replace-type", "seed": rng.randrange(1 << 30), "repl": {k: list(v) for k, v in r.items()}, "level": ["root", "pkg", "iface", "cfg"][j % 4],
+                          "placement": ["inpkg", "outpkg"][j % 2], "builtin_formatter": fm, "template": "both", "formatter": fm})
     return cases
 
 
@@ -77,6 +82,12 @@ def kf_key(case, iface, sig):
 
 
 def eval_case(ctx, case):
+    if case["kind"] == "replace-type":
+        # replace-type changes which imports a file needs: the built-in output must still compile, also without import repair
+        from . import c13
+        v = c13.eval_case(ctx, case)
+        v.tags = ["replace-type"] + [t for t in v.tags if t.startswith("formatter=") or t.startswith("placement=")]
+        return [(case, v)]
     ifaces = case_ifaces(case)
     if case.get("only"):
         ifaces = [i for i in ifaces if i["name"] in case["only"]]
